@@ -355,3 +355,25 @@ Definition object_to_fd_at (sched : list xfer) (old : list byte) (pos : Z) (app 
   let at_ := if app then zlen old else pos in
   (r, desc_write old at_ (wout_dev r),
    match wout_dev r with [] => pos | d => at_ + zlen d end).
+
+(* ------------------------------------------------------------------ any descriptor number is a descriptor *)
+
+(* The number of a descriptor is an argument nothing depends on.  The caller-provided descriptor
+   of json_object_from_fd(_ex) / json_object_to_fd is only passed on to read()/write(); the
+   library's own open() returns [ret]: -1 on failure, otherwise a descriptor number >= 0 — 0, 1
+   and 2 included (a process may have closed its standard descriptors).  As written the test is
+   (fd = open(...)) < 0.  The [_ret] functions also say which descriptor numbers were closed. *)
+Definition object_from_fd_ex_on (fd : Z) := object_from_fd_ex.
+Definition object_to_fd_on (fd : Z) := object_to_fd.
+
+Definition open_failed (ret : Z) : bool := ret <? 0.
+
+Definition object_from_file_ret (ret : Z) parse app_ok (sched : list xfer) (data : list byte)
+  : rres * Z * list Z :=
+  let '(r, opens, closes) := object_from_file (negb (open_failed ret)) parse app_ok sched data in
+  (r, opens, if closes =? 1 then [ret] else []).
+
+Definition object_to_file_ext_ret (ret : Z) (sched : list xfer) (obj_null : bool)
+                                  (ser : option (list byte)) : wout * Z * list Z :=
+  let '(r, opens, closes) := object_to_file_ext (negb (open_failed ret)) sched obj_null ser in
+  (r, opens, if closes =? 1 then [ret] else []).
